@@ -264,7 +264,9 @@ func receiveUnaryResponse[T any](conn StreamingClientConn) (*Response[T], error)
 	if err := conn.Receive(new(T)); err == nil {
 		return nil, NewError(CodeUnknown, errors.New("unary stream has multiple messages"))
 	} else if err != nil && !errors.Is(err, io.EOF) {
-		return nil, NewError(CodeUnknown, err)
+		// Keep the code of errors that already have one (for example canceled or
+		// deadline_exceeded).
+		return nil, wrapIfUncoded(err)
 	}
 	return &Response[T]{
 		Msg:     &msg,
